@@ -1,4 +1,4 @@
-from bisect import bisect
+from bisect import bisect, bisect_left, bisect_right
 from decimal import Decimal
 from enum import IntEnum
 from functools import total_ordering
@@ -356,10 +356,19 @@ class TimingEngine:
         Keep in mind that this situation is floating-point precise, so
         it's unlikely for the `event_tag` to ever make a difference.
         """
-        tagged_time = (time, event_tag)
+        # The timing states are in chronological order, but states that share
+        # a time are in beat order (not tag order), so search on times alone
+        times = [tagged_time[0] for tagged_time in self._tagged_times]
 
         # Same caveat as `time_at`
-        prior_state_index = max(0, bisect(self._tagged_times, tagged_time) - 1)
+        if event_tag == EventTag.WARP:
+            # First state at this exact time (where the warp starts), if any
+            prior_state_index = bisect_left(times, time)
+            if prior_state_index == len(times) or times[prior_state_index] != time:
+                prior_state_index = max(0, prior_state_index - 1)
+        else:
+            # Last state at or before this time
+            prior_state_index = max(0, bisect_right(times, time) - 1)
         prior_state: TimingState = self._state_machine[prior_state_index]
         prior_state_beat = prior_state.event.beat
 
